@@ -50,6 +50,7 @@ def setup(rep, tier):
     rep.minimum('R03.5', 12)
     rep.minimum('R03.6', 6)
     rep.minimum('R03.7', 2)
+    rep.minimum('R03.8', 8)
     rep.minimum('R03.4', 2)
     rep.trusted.append('doc/draft-ietf-codec-opus.xml (RFC 6716 source text) as the table oracle')
 
@@ -569,6 +570,8 @@ def check(rep, prog, tier):
     r03_5(rep, prog, tables)
     r03_6(rep, prog)
     r03_7(rep, prog)
+    from . import chanstate
+    chanstate.check(rep, 'R03.8', prog, 'celt_decode_with_ec_dred', '')
     rep.extra['programs'] = rep.extra.get('programs', 0) + cmp_.n
     rep.extra['disagreements_checked'] = rep.extra.get('disagreements_checked', 0) + cmp_.bad
     rep.extra.setdefault('translation_samples', []).extend(cmp_.samples if prog.config == 'float' else [])
